@@ -61,6 +61,9 @@ func main() {
 		case "-only":
 			i++
 			only = os.Args[i]
+		case "--replay":
+			i++
+			os.Exit(runReplay(prop, tier, os.Args[i]))
 		}
 	}
 	os.Setenv("VERIF_TIER", tier)
@@ -735,4 +738,42 @@ func modelString(m map[string]*smt.Term, ch []symex.ChoiceRec) string {
 		s = s[:600] + "..."
 	}
 	return s
+}
+
+// runReplay re-runs a recorded counterexample natively against /repo's current tree.
+func runReplay(prop, tier, dir string) int {
+	b, err := os.ReadFile(filepath.Join(dir, "README.txt"))
+	if err != nil {
+		fmt.Fprintf(os.Stderr, "not a replay directory: %v\n", err)
+		return 2
+	}
+	kv := map[string]string{}
+	for _, ln := range strings.Split(string(b), "\n") {
+		if i := strings.Index(ln, "="); i > 0 {
+			kv[ln[:i]] = ln[i+1:]
+		}
+	}
+	files := findHarnessFiles(prop)
+	work := filepath.Join(verifDir, ".work", fmt.Sprintf("%s-replay-%d", prop, os.Getpid()))
+	_ = os.MkdirAll(work, 0o755)
+	defer os.RemoveAll(work)
+	n := newNative(work, files, prop, tier)
+	r, err := n.run(kv["pkg"], kv["harness"], filepath.Join(dir, "values.json"))
+	if err != nil {
+		fmt.Fprintf(os.Stderr, "ENGINE-FAILURE %v\n", err)
+		return 2
+	}
+	fmt.Print(r.raw)
+	failed := r.panicMsg != "" && kv["kind"] == "panic"
+	for _, a := range r.asserts {
+		if a == kv["obligation"] {
+			failed = true
+		}
+	}
+	if failed && !r.assumeFail {
+		fmt.Printf("VIOLATION property=%s replay=%s\n", prop, dir)
+		return 1
+	}
+	fmt.Printf("replay of %s: the recorded counterexample does not fail on the current tree\n", dir)
+	return 0
 }
